@@ -373,8 +373,42 @@ def case_year_days(mon, fi, year):
     mon.cls("every-day-of-year", (fi, year), [meth, target, year])
 
 
+def case_seam(mon, fi, year):
+    """Queries every quarter of a day from 20 December of `year` to
+    12 January of the next one: across the New Year (where the finders'
+    year-with-decimals restarts; 1582 is ten days short, years <= 0 and
+    Julian century years have their own day-of-year rules)."""
+    from vpm.oracles import daycount as dc
+    meth, target, kind = FINDERS[fi]
+    j0 = dc.jdn(year, 12, 20) - 0.5
+    prev = None
+    for k in range(4 * 24):
+        mon.evals += 1
+        q = j0 + 0.25 * k
+        try:
+            t, extra = call_finder(fi, q)
+        except Exception as ex:
+            mon.dev("finder.no-exception",
+                    {"finder": meth, "target": target, "query": q,
+                     "seam_after_year": year, "raised": repr(ex)})
+            prev = None
+            continue
+        mon.ok("finder.no-exception")
+        mon.check("result.within-1.6-months", abs(t - q) <= 1.6 * MONTH[kind],
+                  {"finder": meth, "target": target, "query": q,
+                   "result": t, "months": (t - q) / MONTH[kind]},
+                  key_far(fi, q, t))
+        if prev is not None:
+            mon.check("order.never-backwards", t >= prev - 1e-6,
+                      {"finder": meth, "target": target, "query": q,
+                       "seam_after_year": year, "result": t,
+                       "previous": prev})
+        prev = t
+    mon.cls("across-new-year", (fi, year), [meth, target, year])
+
+
 CASES = {"history": history.case, "position": case_position, "sweep": case_sweep, "event": case_event,
-         "year_days": case_year_days}
+         "year_days": case_year_days, "seam": case_seam}
 
 
 def run(mon, spec):
@@ -417,6 +451,15 @@ def run(mon, spec):
     for y in years:
         mon.begin("year_days", [fi, y])
         case_year_days(mon, fi, y)
+    seams = [1582, -1, 0, 1581, 1583, 1599, 1600, 1999, -1999, 3998,
+             rng.randrange(-1999, 3999), rng.randrange(-1999, 3999)]
+    if full:
+        seams += [rng.randrange(-1999, 3999) for _ in range(40)] + \
+            [99, 100, 1499, 1500, 1699, 1700, 1899, 1900, 2099, 2100, -101,
+             -100, 3, 4]
+    for y in seams:
+        mon.begin("seam", [fi, y])
+        case_seam(mon, fi, y)
     for _ in range(nrand):
         q = jd_of_year(rng.uniform(-1999.0, 3999.0))
         mon.begin("event", [fi, q])
